@@ -168,7 +168,23 @@ def family_sequences(tr):
             fam = None
             for v in vals:
                 fam = fam or (family(v) if v is not None else None)
-            if fam:
+            # an adaptor applied to the zip of both containers' sequences (`a.chunks().zip(b.chunks()).take(k)`) selects
+            # from both at once
+            both = False
+            spine = vals[0] if vals else None
+            hops = 0
+            while isinstance(spine, Term) and hops < 12:
+                hops += 1
+                if spine.is_call("zip") and len(spine.args) == 2:
+                    fa, fb = family(spine.args[0]), family(spine.args[1])
+                    if fa and fb and fa != fb:
+                        both = True
+                    break
+                spine = spine.args[0] if spine.args else None
+            if both:
+                for f_ in ("records", "targets"):
+                    seqs[f_].append((e.name, tuple(norm_key(k(v)) for v in vals), e))
+            elif fam:
                 seqs[fam].append((e.name, tuple(norm_key(k(v)) for v in vals), e))
         elif e.kind == "index":
             fam = family(e.base)
